@@ -218,7 +218,7 @@ class AGBackend:
         if name == "tanh":
             return anp.tanh(args[0])
         if name == "sq":
-            return args[0] ** 2
+            return args[0] * args[0]  # the same floating-point operation as the reference (pow(x, 2) may round differently)
         raise KeyError(name)
 
     def gt(self, v, thr):
@@ -359,6 +359,11 @@ def body(max_ops, c):
     fgrads = rb.tape.forward([r.id for r in rin])
     gref = [adj[r.id] for r in rin]
     gscale = max([abs(a) for a in adj] + [1.0])  # tolerances are relative to the largest total cotangent in the graph
+    if gscale > 1e4:
+        # ill-conditioned program (some intermediate value moves the output by a factor > 1e4): a 1-ulp difference in how a sum is
+        # associated is amplified beyond any fixed tolerance, in the primal value already; such programs decide nothing
+        return Outcome("numpy_rejects", detail="ill-conditioned program (largest total cotangent > 1e4)", sample=sample)
+    cond = sum(abs(a) * abs(e[2]) for a, e in zip(adj, rb.tape.entries))  # first-order rounding-error amplification of the primal
 
     def gclose(a, b, k=1.0):
         return abs(a - b) <= 1e-10 * gscale * abs(k) or close(a, b)
@@ -421,7 +426,7 @@ def body(max_ops, c):
         float(y)
     except Exception as e:
         return fail("wrong_kind", f"primal value is {type(y).__name__}: {e}", bucket + "wrong_kind", sample=sample)
-    if not close(float(y), rout.v, 1e-9):
+    if not (close(float(y), rout.v, 1e-12) or abs(float(y) - rout.v) <= 1e-13 * cond):
         return fail("primal_mismatch", f"primal {float(y)!r} vs reference {rout.v!r}", bucket + "primal_mismatch", sample=sample)
     del LOG[:]
     logs = []
